@@ -504,16 +504,29 @@ class C12(Check):
         # quiescence, then the mirror: what the client holds against what the node holds
         time.sleep(3)
         mirror = ctx['mirror'] = []
+
+        def node_value(m, pn, di):
+            pobj = node.secnode.modules[m].parameters[pn]
+            try:
+                return ['err'] if pobj.readerror else ['ok', dtgen.to_wire(di, pobj.value)]
+            except Exception as e:   # noqa
+                return ['unexportable', repr(e)]
+        # (a poll of the node may change a value at any time and its update takes up to 0.6 s on the simulated network:
+        # what the node holds is taken, the client is looked at 1 s later, and only values which the node still holds
+        # then are compared)
+        first = {(m, pn): node_value(m, pn, di) for (m, pn), di in di_of.items()}
+        time.sleep(1.0)
         for (m, pn), di in di_of.items():
             pobj = node.secnode.modules[m].parameters[pn]
             if not pobj.export:
                 continue
-            try:
-                nodeval = ['err'] if pobj.readerror else ['ok', dtgen.to_wire(di, pobj.value)]
-            except Exception as e:   # noqa
-                nodeval = ['unexportable', repr(e)]
             item = cl.cache.get((m, pn))
-            mirror.append((m, pn, nodeval, None if item is None else self._item(di, item)))
+            clientval = None if item is None else self._item(di, item)
+            nodeval = node_value(m, pn, di)
+            if nodeval != first[m, pn]:
+                sim.count('c12.mirror-value-in-flight')
+                continue
+            mirror.append((m, pn, nodeval, clientval))
         cl.disconnect()
         if shape['mode'] == 'proxy':
             for m in ctx['nodeb'].secnode.modules.values():
